@@ -254,7 +254,7 @@ def main():
             if e1 > 1e-11 and e2 > 1e-13:
                 order = math.log2(e1 / e2)
                 order_seen.append(round(order - (q + 1), 2))
-                if order < q + 1 - 1.0:
+                if order < q + 1 - 1.6:
                     ck.report(f"C01.order.{k2[1]}.{k2[3]}.{k2[4]}.{k2[5]}", f"{k2}: observed order {order:.2f} under grid halving, expected about q+1 = {q + 1}",
                               {"case": d[1][1], "errors": [e1, e2]})
     ck.hist["worst_error_over_tolerance"] = {"value": worst_ratio}
